@@ -42,7 +42,10 @@ Section S.
     get (w_fs w) (wsd ++ [old]) = Some Dir -> get (w_fs w) wsd = Some Dir ->
     get (w_fs w) (wsd ++ [new]) = Some Dir -> has_children (w_fs w) (wsd ++ [new]) = true ->
     exists w', sp_save frepr false w ci = (w', inr (FExn EDestinationExists)) /\
-      fs_eq (w_fs w') (w_fs w) /\ w_hs w' = w_hs w /\ w_cs w' = w_cs w /\ w_ss w' = w_ss w.
+      fs_eq (w_fs w') (w_fs w) /\ w_hs w' = w_hs w /\ w_ss w' = w_ss w /\
+      (* the in-memory state point is rolled back too (fix 5e72814): merged back from the restored file *)
+      w_cs w' = set_nth ci (mkC (match c_json cf with Some v => snd (upd_root (c_data c) v) | None => c_data c end)
+                                (c_jobs c)) (w_cs w).
   Proof.
     intros w ci cf c h0 old new wsd Hne HCF Hfile Htmp Hsrc Hws Hdst Hkids.
     set (f := w_fs w) in *. set (src := wsd ++ [old]) in *. set (dst := wsd ++ [new]) in *.
@@ -94,9 +97,11 @@ Section S.
     assert (Hon : str_eqb old new = false) by (apply str_eqb_neq; exact Hne). rewrite Hon.
     assert (Htmp_eq : parent fname ++ [last fname [] ++ [126%N]] = tmp).
     { unfold fname, tmp. rewrite parent_snoc, last_last. reflexivity. }
-    rewrite HCF, Efn. fold fname. rewrite Htmp_eq. fold f. rewrite R1. simpl w_fs. fold src dst. rewrite R2, R3. simpl.
-    eexists. split; [reflexivity|]. split; [|auto].
-    simpl. exact (rename_file_roundtrip f fname tmp cf f1 f3 Hfile Htmp R1 R3).
+    rewrite HCF, Efn. fold fname. rewrite Htmp_eq. fold f. rewrite R1. simpl w_fs. fold src dst. rewrite R2, R3.
+    pose proof (rename_file_roundtrip f fname tmp cf f1 f3 Hfile Htmp R1 R3) as Hrt.
+    assert (Hback : get f3 fname = Some (File cf)) by (rewrite (Hrt fname); exact Hfile).
+    rewrite Hback. simpl.
+    eexists. split; [reflexivity|]. split; [exact Hrt|]. simpl. auto.
   Qed.
 
   (* ---------------------------------------------------------------- update_statepoint *)
@@ -154,7 +159,8 @@ Section S.
       (forall r, get (w_fs w') (dst ++ r) = get (w_fs w) (src ++ r)) /\     (* everything is carried, byte for byte *)
       (forall r, get (w_fs w') (src ++ r) = None) /\                          (* the old place is gone *)
       (forall q, under src q = false -> under dst q = false -> get (w_fs w') q = get (w_fs w) q) /\
-      getH w' h = mkH sj (calc_id frepr d) (Some d) None false.
+      getH w' h = mkH sj (calc_id frepr d) (Some d) None false /\
+      ~ In h (c_jobs (getC w' ci)).            (* fix d38783c: it no longer follows / leads its old shallow copies *)
   Proof.
     intros w h sj w1 ci E src d dst Hws Hsrc Hne Hu1 Hu2 Hdst Hkids Hlt. unfold move. rewrite E.
     pose proof (sp_access_fs frepr w h) as Hf. rewrite E in Hf. simpl in Hf. destruct Hf as [Hf _].
@@ -165,11 +171,16 @@ Section S.
     eexists. split; [reflexivity|].
     assert (Hlen : (h < length (w_hs w1))%nat).
     { pose proof (sp_access_len frepr w h) as Hl. rewrite E in Hl. simpl in Hl. lia. }
-    split; [|split; [|split]].
+    split; [|split; [|split; [|split]]].
     - intro r. simpl. apply (rename_dir_carry (w_fs w) src dst _ r Hsrc Hne R).
     - intro r. simpl. apply (rename_dir_src_gone (w_fs w) src dst _ r Hsrc Hne R).
     - intros q H1 H2. simpl. apply (rename_dir_frame (w_fs w) src dst _ q Hsrc Hne R H1 H2).
     - rewrite getH_register. apply getH_set_H_same. simpl. exact Hlen.
+    - rewrite getC_register. unfold getC, set_HD, set_H, set_C. simpl.
+      destruct (Nat.lt_ge_cases ci (length (w_cs w1))) as [Hci|Hci].
+      + rewrite nth_set_nth_same by exact Hci. simpl. intro Hin. apply filter_In in Hin.
+        destruct Hin as [_ Hb]. rewrite Nat.eqb_refl in Hb. discriminate.
+      + rewrite set_nth_oob by exact Hci. rewrite nth_overflow by exact Hci. simpl. tauto.
   Qed.
 
   (* ---------------------------------------------------------------- clone *)
@@ -321,7 +332,7 @@ Section S.
     let wsd := wsp (getS w (h_s h0)) in
     let src := wsd ++ [old] in
     let dst := wsd ++ [new] in
-    old <> new ->
+    old <> new -> is_null (c_data c) = false ->
     js <> [] ->
     (forall j, In j js -> (j < length (w_hs w))%nat /\ h_cell (getH w j) = Some ci /\ h_s (getH w j) = h_s h0) ->
     getCF w ci = src ++ [SPF] ->
@@ -340,7 +351,7 @@ Section S.
       (forall j, In j js -> h_cached (getH w' j) = Some (c_data c)) /\
       (forall k, ~ In k js -> h_cached (getH w' k) = h_cached (getH w k)).
   Proof.
-    intros w ci cf c js h0 old new wsd src dst Hne Hjs Hall HCF Hfile Htmp Htmp2 Hsrc Hws Hdst Hkids.
+    intros w ci cf c js h0 old new wsd src dst Hne Hnn Hjs Hall HCF Hfile Htmp Htmp2 Hsrc Hws Hdst Hkids.
     set (f := w_fs w) in *.
     set (fname := src ++ [SPF]) in *. set (tmp := src ++ [SPT]) in *.
     assert (Hft : fname <> tmp).
@@ -451,7 +462,7 @@ Section S.
     pose proof (init_writes frepr w3 hl w3 ci (c_data c) Hlt3 E3 Hd3) as IW.
     cbv zeta in IW. rewrite (Hid3 hl Hl_in), Hws3 in IW. fold dst in IW.
     change (w_fs w3) with f3 in IW.
-    destruct IW as [w' [Hi [G [Hids _]]]]; [reflexivity| | | |].
+    destruct IW as [w' [Hi [G [Hids _]]]]; [reflexivity|exact Hnn| | | |].
     { change (wsd ++ [new]) with dst. rewrite G3, G2, strip_app. fold fname.
       assert (E : path_eqb (dst ++ [SPF]) tmp' = false).
       { apply path_eqb_neq. unfold tmp'. intro E. apply snoc_inj in E. exact (SPF_neq_SPT E). }
